@@ -75,6 +75,29 @@ Lemma dec_fields_S f l : dec_fields (S f) l =
   end.
 Proof. reflexivity. Qed.
 
+Lemma field_line name value more :
+  forallb (fun b => negb (Byte.eqb b x3a) && negb (Byte.eqb b x0d) && negb (Byte.eqb b x0a)) name = true ->
+  no_crlf value = true ->
+  line_crlf (render_field (name, value) ++ more) = Some (Some (name ++ x3a :: x20 :: value), more).
+Proof.
+  intros N2 V1. unfold render_field. cbn [fst snd]. rewrite colon_sp.
+  replace ((name ++ [x3a; x20] ++ value ++ PCRLF) ++ more)
+    with ((name ++ x3a :: x20 :: value) ++ ChunkedSpec.CRLF ++ more)
+    by (rewrite <- !app_assoc; reflexivity).
+  apply line_crlf_app. rewrite nolf_app, (name_nolf name N2).
+  change (x3a :: x20 :: value) with ([x3a; x20] ++ value). rewrite nolf_app, (no_crlf_nolf value V1). reflexivity.
+Qed.
+
+Lemma skipn_field name value : skipn (S (length name)) (name ++ x3a :: x20 :: value) = x20 :: value.
+Proof.
+  induction name as [|a name IH]; [reflexivity|]. cbn [length app]. rewrite skipn_cons. exact IH.
+Qed.
+
+Lemma firstn_field name (more : bytes) : firstn (length name) (name ++ more) = name.
+Proof.
+  rewrite firstn_app, Nat.sub_diag, firstn_all. cbn [firstn]. apply app_nil_r.
+Qed.
+
 Lemma dec_fields_render : forall fs fuel rest, forallb wf_field fs = true -> length fs < fuel ->
   dec_fields fuel (flat_map render_field fs ++ PCRLF ++ rest) = Some (fs, rest).
 Proof.
@@ -86,26 +109,14 @@ Proof.
     cbn [forallb] in Hwf. apply andb_true_iff in Hwf. destruct Hwf as [Hf Hwf].
     destruct (wf_field_inv f Hf) as (N1 & N2 & V1 & V2).
     destruct f as [name value]. cbn [fst snd] in *.
-    rewrite dec_fields_S. cbn [flat_map]. unfold render_field at 1. cbn [fst snd].
-    replace ((name ++ bs ": " ++ value ++ PCRLF) ++ flat_map render_field fs ++ PCRLF ++ rest)
-      with ((name ++ bs ": " ++ value) ++ ChunkedSpec.CRLF ++ (flat_map render_field fs ++ PCRLF ++ rest))
-      by (rewrite <- !app_assoc; reflexivity).
-    rewrite line_crlf_app.
-    2:{ rewrite !nolf_app, (name_nolf name N2), (no_crlf_nolf value V1). reflexivity. }
-    rewrite colon_sp. cbn [app].
+    rewrite dec_fields_S. cbn [flat_map]. rewrite <- app_assoc.
+    rewrite (field_line name value _ N2 V1).
     destruct (name ++ x3a :: x20 :: value) as [|l0 lr] eqn:EL.
     { apply app_eq_nil in EL. destruct EL as [_ EL]. discriminate EL. }
     rewrite <- EL. clear EL l0 lr.
     rewrite (find_colon name (x20 :: value) N2).
     rewrite (IH fuel rest Hwf ltac:(lia)).
-    rewrite firstn_app, Nat.sub_diag, firstn_all. cbn [firstn]. rewrite app_nil_r.
-    replace (skipn (S (length name)) (name ++ x3a :: x20 :: value)) with (x20 :: value).
-    2:{ replace (name ++ x3a :: x20 :: value) with ((name ++ [x3a]) ++ x20 :: value)
-          by (rewrite <- app_assoc; reflexivity).
-        rewrite skipn_app. rewrite (skipn_all2 (name ++ [x3a])) by (rewrite app_length; cbn [length]; lia).
-        rewrite app_length. cbn [length app]. replace (S (length name) - (length name + 1)) with 0 by lia.
-        reflexivity. }
-    rewrite (strip_ows_sp value V2). reflexivity.
+    rewrite firstn_field, skipn_field, (strip_ows_sp value V2). reflexivity.
 Qed.
 
 Lemma render_fields_length fs : length fs <= length (flat_map render_field fs).
@@ -185,7 +196,9 @@ Proof.
   - cbn [fold_left filter existsb rev]. rewrite app_nil_r, orb_false_r. repeat split; reflexivity.
   - cbn [fold_left]. destruct (IH (add_field h f)) as (I1 & I2 & I3 & I4).
     destruct (add_facts h (fst f) (snd f)) as (A1 & A2 & A3 & A4). fold (add_field h f) in A1, A2, A3, A4.
-    rewrite I1, I2, I3, I4, A1, A2, A3, A4. cbn [filter]. unfold is_clf at 2 4, is_te at 2.
+    rewrite I1, I2, I3, I4, A1, A2, A3, A4. cbn [filter].
+    change (is_clf f) with (same_name (fst f) (bs "content-length")).
+    change (is_te f) with (same_name (fst f) (bs "transfer-encoding")).
     destruct (same_name (fst f) (bs "content-length")) eqn:EC;
       destruct (same_name (fst f) (bs "transfer-encoding")) eqn:ET; cbn [negb andb existsb rev];
       rewrite ?app_nil_r, ?orb_false_r, <- ?app_assoc, <- ?orb_assoc; cbn [app];
